@@ -1,0 +1,142 @@
+//! Entry points used by external verification harnesses.
+//!
+//! Everything in this module only *constructs* the production tasks over a caller-supplied
+//! byte stream, it does not re-implement any of their behavior.
+
+use std::num::NonZeroUsize;
+use std::sync::Arc;
+
+use crate::client::task::ClientLoop;
+use crate::client::Channel;
+use crate::common::frame::{FrameWriter, FramedReader};
+use crate::common::phys::PhysLayer;
+use crate::server::task::{AuthorizationType, SessionTask};
+use crate::server::{AuthorizationHandler, RequestHandler, ServerHandle, ServerHandlerMap};
+use crate::{DecodeLevel, RequestError};
+
+/// A byte stream that can be used as the physical layer of a session
+pub trait VerifIo: tokio::io::AsyncRead + tokio::io::AsyncWrite + Unpin + Send {}
+
+impl<T> VerifIo for T where T: tokio::io::AsyncRead + tokio::io::AsyncWrite + Unpin + Send {}
+
+/// Which framing a session uses
+#[derive(Copy, Clone, Debug, PartialEq, Eq)]
+pub enum Framing {
+    /// MBAP framing (TCP / TLS)
+    Tcp,
+    /// RTU framing (serial)
+    #[cfg(feature = "serial")]
+    Rtu,
+}
+
+impl Framing {
+    fn writer(self) -> FrameWriter {
+        match self {
+            Framing::Tcp => FrameWriter::tcp(),
+            #[cfg(feature = "serial")]
+            Framing::Rtu => FrameWriter::rtu(),
+        }
+    }
+
+    fn request_reader(self) -> FramedReader {
+        match self {
+            Framing::Tcp => FramedReader::tcp(),
+            #[cfg(feature = "serial")]
+            Framing::Rtu => FramedReader::rtu_request(),
+        }
+    }
+
+    fn response_reader(self) -> FramedReader {
+        match self {
+            Framing::Tcp => FramedReader::tcp(),
+            #[cfg(feature = "serial")]
+            Framing::Rtu => FramedReader::rtu_response(),
+        }
+    }
+}
+
+/// The production server session task running over a caller-supplied byte stream
+pub struct ServerSession<T: RequestHandler> {
+    task: SessionTask<T>,
+}
+
+impl<T: RequestHandler> ServerSession<T> {
+    /// Create a session and the handle that controls it
+    ///
+    /// `auth` is the authorization handler and the role that a TLS server would
+    /// have extracted from the client certificate
+    pub fn new(
+        handlers: ServerHandlerMap<T>,
+        auth: Option<(Arc<dyn AuthorizationHandler>, String)>,
+        framing: Framing,
+        decode: DecodeLevel,
+    ) -> (ServerHandle, Self) {
+        let (tx, rx) = tokio::sync::mpsc::channel(crate::server::SERVER_COMMAND_CHANNEL_CAPACITY);
+        let auth = match auth {
+            None => AuthorizationType::None,
+            Some((handler, role)) => AuthorizationType::Handler(handler, role),
+        };
+        let task = SessionTask::new(
+            handlers,
+            auth,
+            framing.writer(),
+            framing.request_reader(),
+            rx,
+            decode,
+        );
+        (ServerHandle::new(tx), Self { task })
+    }
+
+    /// Run the session until it ends. It may be run again on a new stream, which is what the
+    /// RTU server does when it re-opens its port.
+    pub async fn run(&mut self, io: Box<dyn VerifIo>) -> RequestError {
+        let mut phys = PhysLayer::new_verif(io);
+        self.task.run(&mut phys).await
+    }
+}
+
+/// The production client request loop running over caller-supplied byte streams
+pub struct ClientSession {
+    inner: ClientLoop,
+}
+
+impl ClientSession {
+    /// Create the loop and the channel that feeds it
+    pub fn new(
+        framing: Framing,
+        max_queued_requests: usize,
+        decode: DecodeLevel,
+        max_timeouts: Option<NonZeroUsize>,
+    ) -> (Channel, Self) {
+        let (tx, rx) = tokio::sync::mpsc::channel(max_queued_requests);
+        let inner = ClientLoop::new(
+            rx.into(),
+            framing.writer(),
+            framing.response_reader(),
+            decode,
+            max_timeouts,
+        );
+        (Channel { tx }, Self { inner })
+    }
+
+    /// Run requests over the stream until the session ends, returns the reason
+    pub async fn run(&mut self, io: Box<dyn VerifIo>) -> String {
+        let mut phys = PhysLayer::new_verif(io);
+        format!("{:?}", self.inner.run(&mut phys).await)
+    }
+
+    /// What the channel tasks do while they are disabled, `false` means shutdown
+    pub async fn wait_for_enabled(&mut self) -> bool {
+        self.inner.wait_for_enabled().await.is_ok()
+    }
+
+    /// What the channel tasks do while they wait to reconnect, returns the reason it ended
+    pub async fn fail_requests_for(&mut self, duration: std::time::Duration) -> String {
+        format!("{:?}", self.inner.fail_requests_for(duration).await)
+    }
+
+    /// Is the channel currently enabled?
+    pub fn is_enabled(&self) -> bool {
+        self.inner.is_enabled()
+    }
+}
